@@ -34,11 +34,12 @@ Definition raw_params_chan_bw (h : hdr) : Q := CHAN_BW h / mhz.
    concatenation over channels: DFT bin m of coarse channel c lands at global fine index c*L + shift m *)
 Definition shift (L m : Z) : Z := (m + L / 2) mod L.
 (* baseband offset (in units of cbw/L) of DFT bin m: bins above L/2 are negative frequencies *)
-Definition bin_offset (L m : Z) : Z := if (m <? L / 2)%Z then m else (m - L)%Z.
+Definition bin_offset (L m : Z) : Z := if (m <? (L + 1) / 2)%Z then m else (m - L)%Z.     (* even L: m = L/2 (Nyquist) counts as negative *)
 Definition coarse_centre (fch1 cbw : Q) (start_chan c : Z) : Q := fch1 + zq (start_chan + c) * cbw.
 (* frequency axis a frame built on the reduced product carries: first fine bin + g * df *)
+(* after fftshift the zero-offset bin of a coarse channel sits at position L/2 (integer division) for even and odd L alike *)
 Definition fine_label (fch1 cbw : Q) (start_chan L g : Z) : Q :=
-  (fch1 + zq start_chan * cbw - cbw / 2) + zq g * (cbw / zq L).
+  (fch1 + zq start_chan * cbw - zq (L / 2) * (cbw / zq L)) + zq g * (cbw / zq L).
 
 (* shape of the reducer's output: (T // fftlength) // int_factor rows, nchans * fftlength columns *)
 Definition reducer_shape (T nchans fftlength int_factor : Z) : Z * Z :=
